@@ -147,6 +147,21 @@ func genScenario(r *hk.Rand, proto int, thorough bool) scenario {
 			sc.CliCk = append(sc.CliCk, cookieJ{genCookieName(r), genCookieValue(r)})
 		}
 	}
+	// cookies written as a Cookie HEADER (request level or client default), alone or next to the cookie API
+	if r.Chance(18) {
+		op := hdrOp{Kind: "set", K: "Cookie", V: hk.Pick(r, []string{"h1=a", "h1=a; h2=b", "raw=1; raw2=2; raw3=3", "tok=x/y"})}
+		if r.Chance(20) {
+			op = hdrOp{Kind: "nc", K: "cookie", V: "lower=1"} // verbatim lower-case key
+		}
+		if r.Bool() {
+			sc.Req = append(sc.Req, op)
+		} else {
+			sc.Cli = append(sc.Cli, op)
+		}
+		if len(sc.ReqCk)+len(sc.CliCk) == 0 && r.Chance(70) {
+			sc.ReqCk = append(sc.ReqCk, cookieJ{"api", "v1"})
+		}
+	}
 	if r.Chance(18) {
 		sc.Host = hk.Pick(r, hostOverrides)
 	}
@@ -628,8 +643,21 @@ func runReqCell(r *hk.Run, o *origin.Origin, sc scenario) {
 				}
 			}
 		}
+		hdrCookies := false
+		for k, vs := range described { // cookies the caller wrote as a Cookie header come first
+			if strings.EqualFold(k, "cookie") {
+				hdrCookies = true
+				for _, v := range vs {
+					expCk = append(expCk, strings.Split(v, "; ")...)
+				}
+			}
+		}
 		for _, c := range append(append([]cookieJ{}, sc.ReqCk...), sc.CliCk...) {
 			expCk = append(expCk, c.N+"="+c.V)
+		}
+		if hdrCookies { // a verbatim "cookie" key travels as a field of its own: compare as a multiset
+			sort.Strings(gotCk)
+			sort.Strings(expCk)
 		}
 		if strings.Join(gotCk, "|") != strings.Join(expCk, "|") {
 			fail("cookies-altered", "cookies differ from the described ones", gotCk, expCk)
